@@ -1733,6 +1733,8 @@ func (p *parser) domainTextLitEx(off, end token.Pos) *ast.DomainTextLitEx {
 
 	var args []ast.Expr
 	var sp parser
+	// errors of the sub-parser belong to this parse (also when it bails out)
+	defer func() { p.errors = append(p.errors, sp.errors...) }()
 	sp.initSub(file, src, int(off)-base, 0)
 
 	for {
